@@ -56,7 +56,7 @@ func TestFidelity(t *testing.T) {
 	roots := allRoots()
 	n := 3000
 	if rec.Thorough() {
-		n = 200000
+		n = 4000000
 	}
 	idx := 0
 	for k := 0; k < n; k += 50 {
